@@ -36,9 +36,10 @@ Inductive gpc :=
 | GIns            (* write lock held, inside mapassign *)
 | GLoop           (* blocked in  <-streamChannel *)
 | GGot (t : tg)   (* received t; inside stream.Send *)
-| GDel            (* stream.Send failed; drainer goroutine started; about to  mu.Lock()  and begin delete(StreamChannels, addr) *)
-| GDeling         (* write lock held, inside mapdelete *)
-| GClose          (* write lock held; about to close(streamChannel) and unlock *)
+| GFail           (* stream.Send failed; cleanup begins *)
+| GDel            (* drainer goroutine started ( go func(){ for range ch {} }() ); about to  mu.Lock() *)
+| GDeling (d : bool)  (* write lock held, inside mapdelete; d: the drainer is running *)
+| GClose (d : bool)   (* write lock held; about to close(streamChannel) and unlock *)
 | GDone.
 
 Inductive spc :=
@@ -105,7 +106,10 @@ Inductive label :=
 | GInsB (r : nat) | GInsE (r : nat)   (* mu.Lock() + begin / end of StreamChannels[addr] = ch + mu.Unlock() *)
 | GRecv (r : nat)           (* tg := <-streamChannel *)
 | GSend (r : nat) (ok : bool)  (* stream.Send returned nil / an error *)
-| GDelB (r : nat) | GDelE (r : nat)   (* mu.Lock() + begin / end of delete(StreamChannels, addr) *)
+| GSpawn (r : nat)          (* go func(){ for range ch {} }(): start the drainer of a leaving stream *)
+| GDelB (r : nat) | GDelE (r : nat)   (* mu.Lock() + begin / end of delete(StreamChannels, addr); GDelB is taken AFTER GSpawn (the code's order) *)
+| GDelBx (r : nat)          (* mu.Lock() BEFORE the drainer is started: not a behaviour of the code (source tie in checks/C26.py);
+                               it is the reordering of seeded mutation C26-2 and exists only to state what goes wrong *)
 | GCloseL (r : nat)         (* close(streamChannel); mu.Unlock() *)
 | GDrain (r : nat).         (* the drainer goroutine of a leaving stream discards one queued TG *)
 
@@ -220,28 +224,39 @@ Definition step (l : label) (s : st) : option st :=
       match nth_error (gs s) r with
       | Some (GGot t) =>
           if ok then Some (set_g (set_delivered s (upd r (nth r (delivered s) [] ++ [t]) (delivered s))) r GLoop)
-          else Some (set_g s r GDel)
+          else Some (set_g s r GFail)
+      | _ => None
+      end
+  | GSpawn r =>
+      match nth_error (gs s) r with
+      | Some GFail => Some (set_g s r GDel)
+      | Some (GClose false) => Some (set_g s r (GClose true))
       | _ => None
       end
   | GDelB r =>
       match nth_error (gs s) r with
-      | Some GDel => map_write_begin s r GDeling
+      | Some GDel => map_write_begin s r (GDeling true)
+      | _ => None
+      end
+  | GDelBx r =>
+      match nth_error (gs s) r with
+      | Some GFail => map_write_begin s r (GDeling false)
       | _ => None
       end
   | GDelE r =>
       match nth_error (gs s) r with
-      | Some GDeling =>
-          Some (set_g (set_writing (set_smap s (remove_key (smap s) (nth r (keys s) 0))) None) r GClose)
+      | Some (GDeling d) =>
+          Some (set_g (set_writing (set_smap s (remove_key (smap s) (nth r (keys s) 0))) None) r (GClose d))
       | _ => None
       end
   | GCloseL r =>
       match nth_error (gs s) r, nth_error (chs s) r with
-      | Some GClose, Some ch => Some (set_g (set_lock (set_chs s (upd r (mkchan (q ch) true) (chs s))) LkFree) r GDone)
+      | Some (GClose true), Some ch => Some (set_g (set_lock (set_chs s (upd r (mkchan (q ch) true) (chs s))) LkFree) r GDone)
       | _, _ => None
       end
   | GDrain r =>
       match nth_error (gs s) r, nth_error (chs s) r with
-      | Some (GDel | GDeling | GClose), Some ch =>
+      | Some (GDel | GDeling true | GClose true), Some ch =>
           match q ch with
           | _ :: rest => Some (set_chs s (upd r (mkchan rest (closed ch)) (chs s)))
           | [] => None
@@ -269,3 +284,26 @@ Definition internal_enabled (s : st) : bool :=
   enabled SRecv s || enabled SLock s || enabled SEnd s || enabled SSend s
   || existsb (fun k => enabled (SNext k) s) (keys s)
   || existsb (fun r => enabled (GRecv r) s || enabled (GSend r true) s) (seq 0 (length (keys s))).
+
+(** a step the MASTER can take by itself (sender goroutine, stream goroutines except the replica's stream.Send,
+    drainers), in the code's order (no GDelBx) *)
+Definition master_enabled (s : st) : bool :=
+  enabled SRecv s || enabled SLock s || enabled SEnd s || enabled SSend s
+  || existsb (fun k => enabled (SNext k) s) (keys s)
+  || existsb (fun r => enabled (GInsB r) s || enabled (GInsE r) s || enabled (GRecv r) s || enabled (GSpawn r) s
+                       || enabled (GDelB r) s || enabled (GDelE r) s || enabled (GCloseL r) s || enabled (GDrain r) s)
+             (seq 0 (length (keys s))).
+(** some replica is inside stream.Send: the environment's turn *)
+Definition in_send (s : st) : bool := existsb (fun g => match g with GGot _ => true | _ => false end) (gs s).
+(** nothing left to do: sender idle, nothing queued, every stream waits on an empty channel or is gone *)
+Definition quiescent (s : st) : bool :=
+  match sp s, schan s with
+  | SIdle, [] => forallb (fun r => match nth_error (gs s) r, nth_error (chs s) r with
+                                   | Some GLoop, Some c => match q c with [] => true | _ => false end
+                                   | Some GDone, _ => true
+                                   | _, _ => false
+                                   end) (seq 0 (length (gs s)))
+  | _, _ => false
+  end.
+(** guard: the code's order of the cleanup *)
+Definition code_order (l : label) : bool := match l with GDelBx _ => false | _ => true end.
